@@ -15,6 +15,17 @@ from . import ast, exceptions
 RuleDecorator = TypeVar("RuleDecorator", bound=Callable[..., Any])
 
 _RWS = r"\s+"
+
+
+def _kw(word: str) -> str:
+    """
+    Keywords are case insensitive, but only in ASCII: with plain `re.I`, `s`
+    also matches U+017F (so that `falſe` would be a boolean), `k` the Kelvin
+    sign and `i` the dotted and dotless Turkish letters.
+    """
+    return f"(?a:{word})"
+
+
 # An infix operator keyword can only follow an operand, and every operand ends
 # in a word character, a closing quote or a closing parenthesis. Anywhere else
 # (after `-`, `,`, `:`, `(` or at the start) the same letters are an identifier.
@@ -124,7 +135,8 @@ class ODataLexer(Lexer):
     ####################################################################################
 
     @_(
-        r"duration'[+-]?P(?:[0-9]+Y)?(?:[0-9]+M)?(?:[0-9]+D)?(?:T(?:[0-9]+H)?(?:[0-9]+M)?(?:[0-9]+(?:\.[0-9]+)?S)?)?'"
+        _kw("duration")
+        + r"'[+-]?P(?:[0-9]+Y)?(?:[0-9]+M)?(?:[0-9]+D)?(?:T(?:[0-9]+H)?(?:[0-9]+M)?(?:[0-9]+(?:\.[0-9]+)?S)?)?'"
     )
     def DURATION(self, t):
         ":meta private:"
@@ -150,7 +162,7 @@ class ODataLexer(Lexer):
         t.value = ast.String(val)
         return t
 
-    @_(r"geography'(?:[^']|'')*'")
+    @_(_kw("geography") + r"'(?:[^']|'')*'")
     def GEOGRAPHY(self, t):
         ":meta private:"
 
@@ -194,13 +206,13 @@ class ODataLexer(Lexer):
         t.value = ast.Integer(t.value)
         return t
 
-    @_(r"(?:true|false)(?!\.?\w)")
+    @_(_kw("true|false") + r"(?!\.?\w)")
     def BOOLEAN(self, t):
         ":meta private:"
         t.value = ast.Boolean(t.value)
         return t
 
-    @_(r"null(?!\.?\w)")
+    @_(_kw("null") + r"(?!\.?\w)")
     def NULL(self, t):
         ":meta private:"
         t.value = ast.Null()
@@ -209,31 +221,31 @@ class ODataLexer(Lexer):
     ####################################################################################
     # Arithmetic
     ####################################################################################
-    @_(rf"{_INFIX_RWS}add{_RWS}")
+    @_(rf"{_INFIX_RWS}{_kw('add')}{_RWS}")
     def ADD(self, t):
         ":meta private:"
         t.value = ast.Add()
         return t
 
-    @_(rf"{_INFIX_RWS}sub{_RWS}")
+    @_(rf"{_INFIX_RWS}{_kw('sub')}{_RWS}")
     def SUB(self, t):
         ":meta private:"
         t.value = ast.Sub()
         return t
 
-    @_(rf"{_INFIX_RWS}mul{_RWS}")
+    @_(rf"{_INFIX_RWS}{_kw('mul')}{_RWS}")
     def MUL(self, t):
         ":meta private:"
         t.value = ast.Mult()
         return t
 
-    @_(rf"{_INFIX_RWS}div{_RWS}")
+    @_(rf"{_INFIX_RWS}{_kw('div')}{_RWS}")
     def DIV(self, t):
         ":meta private:"
         t.value = ast.Div()
         return t
 
-    @_(rf"{_INFIX_RWS}mod{_RWS}")
+    @_(rf"{_INFIX_RWS}{_kw('mod')}{_RWS}")
     def MOD(self, t):
         ":meta private:"
         t.value = ast.Mod()
@@ -248,20 +260,20 @@ class ODataLexer(Lexer):
     ####################################################################################
     # Boolean logic
     ####################################################################################
-    @_(rf"{_INFIX_RWS}and{_RWS}")
+    @_(rf"{_INFIX_RWS}{_kw('and')}{_RWS}")
     def AND(self, t):
         ":meta private:"
         t.value = ast.And()
         return t
 
-    @_(rf"{_INFIX_RWS}or{_RWS}")
+    @_(rf"{_INFIX_RWS}{_kw('or')}{_RWS}")
     def OR(self, t):
         ":meta private:"
         t.value = ast.Or()
         return t
 
     # `a/not` is a path segment, not the start of a negation:
-    @_(rf"(?<!/)not{_RWS}")
+    @_(rf"(?<!/){_kw('not')}{_RWS}")
     def NOT(self, t):
         ":meta private:"
         t.value = ast.Not()
@@ -270,43 +282,43 @@ class ODataLexer(Lexer):
     ####################################################################################
     # Comparators
     ####################################################################################
-    @_(rf"{_INFIX_RWS}eq{_RWS}")
+    @_(rf"{_INFIX_RWS}{_kw('eq')}{_RWS}")
     def EQ(self, t):
         ":meta private:"
         t.value = ast.Eq()
         return t
 
-    @_(rf"{_INFIX_RWS}ne{_RWS}")
+    @_(rf"{_INFIX_RWS}{_kw('ne')}{_RWS}")
     def NE(self, t):
         ":meta private:"
         t.value = ast.NotEq()
         return t
 
-    @_(rf"{_INFIX_RWS}lt{_RWS}")
+    @_(rf"{_INFIX_RWS}{_kw('lt')}{_RWS}")
     def LT(self, t):
         ":meta private:"
         t.value = ast.Lt()
         return t
 
-    @_(rf"{_INFIX_RWS}le{_RWS}")
+    @_(rf"{_INFIX_RWS}{_kw('le')}{_RWS}")
     def LE(self, t):
         ":meta private:"
         t.value = ast.LtE()
         return t
 
-    @_(rf"{_INFIX_RWS}gt{_RWS}")
+    @_(rf"{_INFIX_RWS}{_kw('gt')}{_RWS}")
     def GT(self, t):
         ":meta private:"
         t.value = ast.Gt()
         return t
 
-    @_(rf"{_INFIX_RWS}ge{_RWS}")
+    @_(rf"{_INFIX_RWS}{_kw('ge')}{_RWS}")
     def GE(self, t):
         ":meta private:"
         t.value = ast.GtE()
         return t
 
-    @_(rf"{_INFIX_RWS}in{_RWS}")
+    @_(rf"{_INFIX_RWS}{_kw('in')}{_RWS}")
     def IN(self, t):
         ":meta private:"
         t.value = ast.In()
@@ -315,13 +327,13 @@ class ODataLexer(Lexer):
     ####################################################################################
     # Collection operators
     ####################################################################################
-    @_(r"any(?=\()")
+    @_(_kw("any") + r"(?=\()")
     def ANY(self, t):
         ":meta private:"
         t.value = ast.Any()
         return t
 
-    @_(r"all(?=\()")
+    @_(_kw("all") + r"(?=\()")
     def ALL(self, t):
         ":meta private:"
         t.value = ast.All()
